@@ -430,8 +430,12 @@ let () =
            (* update the history stamps *)
            (if exec = 0 then Hashtbl.replace used_at (f, itid, x) !evidx
             else if List.mem_assoc x post_store then begin
-              Hashtbl.replace used_at (f, itid, x) !evidx; Hashtbl.replace stored_at (f, itid, x) !evidx;
-              Hashtbl.replace stored_time (f, itid, x) (int_of_n now) end);
+              Hashtbl.replace used_at (f, itid, x) !evidx;
+              (* a new store stamp and birth only when THIS call's result was stored (a rejected refresh
+                 leaves the old entry where it was) *)
+              if decision && (match stored_after with Some (v, _, _) -> v = int_of_n (enc body) | None -> false) then begin
+                Hashtbl.replace stored_at (f, itid, x) !evidx;
+                Hashtbl.replace stored_time (f, itid, x) (int_of_n now) end end);
            if has "iso" then check_frame "iso" [(f, itid)] instances;
            (* sharing / isolation between threads, on two consecutive calls with the same arguments from
               DIFFERENT threads with no time in between: global and async caches serve the second from
